@@ -137,6 +137,12 @@ theorem C13_cycle_is_reported (fuel : Nat) (pre : List Rule) (att : List (List C
   rw [hf]
   simp only [hasCycle_of_chain folded v hv hvar y chain hy hc hend hlen, if_true]
 
+/-- the hypotheses are met by the three-variable cycle: `a` refers to `b`, the chain `b → c → a` closes it -/
+example : resolve 10 [var "a" ["@{b}/x"], var "b" ["@{c}"], var "c" ["/y@{a}"]] [] = .error .recursive :=
+  C13_cycle_is_reported 10 _ [] [var "a" ["@{b}/x"], var "b" ["@{c}"], var "c" ["/y@{a}"]] rfl
+    (var "a" ["@{b}/x"]) (by simp) (by decide) "b".toList ["c".toList, "a".toList] (by decide +kernel)
+    ⟨by decide +kernel, by decide +kernel, trivial⟩ (by decide) (by decide)
+
 /-- the cycle test does not reject a preamble without one: diamonds and repeated references are fine -/
 example : hasCycle [var "a" ["@{b}@{c}"], var "b" ["@{d}/x", "@{d}"], var "c" ["@{d}"], var "d" ["/y"]] = false := by
   decide +kernel
